@@ -167,9 +167,21 @@ pub fn generate(thorough: bool, seed: u64, em: &mut Emitter) {
                 _ => true,
             })
             .collect();
-        let doc = to_yaml(&claims, &marks, r);
+        let mut doc = to_yaml(&claims, &marks, r);
+        // the tag !sd need not be spelled "!sd" in the text: a %TAG handle, a redefined primary handle or a URI escape
+        // name the same tag, and parse_yaml sees the resolved tag
+        let mut respelled = false;
+        if !marks.is_empty() && r.chance(1, 6) && !doc.starts_with("---") && !doc.starts_with('%') {
+            respelled = true;
+            doc = match r.below(3) {
+                0 => format!("%TAG !x! !s\n---\n{}", doc.replace("!sd ", "!x!d ")),
+                1 => format!("%TAG ! !s\n---\n{}", doc.replace("!sd ", "!d ")),
+                _ => doc.replace("!sd ", "!s%64 "),
+            };
+        }
         let paths: Vec<String> = marks.iter().map(gen::render).collect();
         em.case("yaml", json!({"doc": doc, "claims": claims, "paths": paths, "expect_ok": true,
+                               "tag": if respelled { json!("tag_spelled_differently") } else { Value::Null },
                                "nontrivial": marks.iter().any(|m| m.len() > 1) || marks.iter().any(|m| marks.iter().any(|q| q != m && gen::is_prefix(m, q)))}));
     }
     // tags where the library does not support them (on a value, foreign tags, !sd on a non-string item): it may
